@@ -36,7 +36,9 @@ import vlib.asanworker as W
 LEVEL = "model_checking"
 CACHE = os.path.join(build.CACHE, "c04")
 PY = "/venv/bin/python"
-QUARANTINE = ":quarantine_size_mb=2:thread_local_quarantine_size_kb=16"
+# redzone=64: every stray range of the grids (at most 44 bytes past an argument) ends
+# in a red zone, never in a neighbouring live object, whatever the heap layout
+QUARANTINE = ":quarantine_size_mb=2:thread_local_quarantine_size_kb=16:redzone=64"
 
 
 # ------------------------------------------------------------------ workers
@@ -51,7 +53,10 @@ def worker_env(symbolize=False, shim_mode=1):
     env["ASAN_OPTIONS"] += QUARANTINE + ":symbolize=%d" % (1 if symbolize else 0)
     env["UBSAN_OPTIONS"] += ":symbolize=%d" % (1 if symbolize else 0)
     env["CRYPTOSHIM_MODE"] = str(shim_mode)
-    env["PYTHONDONTWRITEBYTECODE"] = "1"
+    # workers are restarted after every sanitizer death; compiling aioquic's sources
+    # costs > 1 s each time, so byte code is cached under .cache (never next to /repo)
+    env.pop("PYTHONDONTWRITEBYTECODE", None)
+    env["PYTHONPYCACHEPREFIX"] = os.path.join(build.CACHE, "pycache")
     return env
 
 
@@ -466,7 +471,7 @@ def confirm(worker, sig, replay):
     effect of heap damage)."""
     idx = replay["only"][0]
     tries = [[idx]]
-    if replay["expect"].get("death") and idx is not None and idx > 0:
+    if idx is not None and idx > 0:
         k = 1
         while k <= 4096 and idx - k >= 0:
             tries.append(list(range(idx - k, idx + 1)))
